@@ -354,6 +354,15 @@ impl ZeroCopyCache {
         let entry = ZeroCopyEntry::new(data);
         let size = entry.size();
 
+        // An entry larger than the whole budget cannot be cached within the
+        // limit: do not store it, and drop the value it would have replaced so
+        // that a later get cannot return the stale one.
+        if size > self.max_memory {
+            self.remove(key);
+            self.stats.puts += 1;
+            return;
+        }
+
         // Check if we need to evict
         while self.total_memory + size > self.max_memory && !self.entries.is_empty() {
             self.evict_lru();
